@@ -633,6 +633,7 @@ def o198(ctx):
 
 def _obligations():
     return [
+        Obligation("O19.20", "accessors of the particle list: get_coordinates = (x,y,z) + shifts, get_angles / get_rotations = the stored zxz angles, fill stores values as given (shared with C05)", _c05.accessors, floor=20),
         Obligation("O19.8", "connection arbitration: both ends to the same chain -> only the closer connection is kept (decision table over the block's tests)", o198, floor=30),
         Obligation("O19.6", "per-tomogram subsets: get_motl_subset selects exactly feature == value (shared with C08)", _c08.o81, floor=10),
         Obligation("O19.7", "entry / exit sites: get_coordinates = (x,y,z) + shifts, nothing else (shared with C05)", _c05.o51, floor=9),
@@ -645,4 +646,4 @@ def _obligations():
 
 
 def obligations():
-    return _obligations() + [labels_obligation("C19"), selectors_obligation("C19"), effects_obligation("C19"), plumbing_obligation("C19"), overrides_obligation("C19"), options_obligation("C19")]
+    return _obligations() + [constructors_obligation(['cryomotl.Motl', 'cryomotl.EmMotl']), labels_obligation("C19"), selectors_obligation("C19"), effects_obligation("C19"), plumbing_obligation("C19"), overrides_obligation("C19"), options_obligation("C19")]
